@@ -1,4 +1,5 @@
 import ColaVerif.Lemmas.ExprSoundAux
+import ColaVerif.Lemmas.OpDtype
 
 /-!
 # C03: the operator algebra builds the operator of the corresponding matrix expression
@@ -27,6 +28,11 @@ def Rep (v : Val R) (r c : Nat) (M : MatF R) : Prop :=
 def Good : Val R → Prop
   | .op A => A.wf = true ∧ A.dupSlice = false ∧ A.HermOK
   | .arr .. => True
+
+/-- the value is a plain array -/
+def isArr : Val R → Bool
+  | .op _ => false
+  | .arr .. => true
 
 /-- the top node of an operator value that reports `SelfAdjoint` is Hermitian -/
 def HermTop : Val R → Prop
@@ -119,10 +125,11 @@ theorem lazifyV_good {v : Val R} (h : v.Good) : Op.Good (lazifyV v) := by
 /-- **rule `mul`**: the scalar is merged into an existing `ScalarMul`, otherwise placed in front
 as `Product[ScalarMul, A]`; outside the clause `complex-scalar-real-operator` the result
 represents `c · A`. -/
-theorem mulRule_sound (re : R → R) (A : Op R) (s : Scal R) (v : Val R) (hg : Op.Good A)
+theorem mulRule_build (re : R → R) (A : Op R) (s : Scal R) (v : Val R) (hg : Op.Good A)
     (hl : s.cplx = false ∨ A.dtype.isComplex = true)
-    (h : mulRule re A s = .ok v) (hH : v.HermTop) :
-    ∃ B, v = .op B ∧ B.Rep A.rows A.cols (smulM s.v A.den.f) ∧ Op.Good B := by
+    (h : mulRule re A s = .ok v) :
+    ∃ B, v = .op B ∧ B.Rep A.rows A.cols (smulM s.v A.den.f) ∧ B.wf = true ∧ B.dupSlice = false ∧
+      (Op.HermNode B → B.HermOK) := by
   have hlossy : (s.cplx && !A.dtype.isComplex) = false := by
     rcases hl with h1 | h1 <;> simp [h1]
   have hc := coreRel A
@@ -132,7 +139,8 @@ theorem mulRule_sound (re : R → R) (A : Op R) (s : Scal R) (v : Val R) (hg : O
     rw [heq] at hc
     injection h with h
     subst h
-    refine ⟨_, rfl, ⟨?_, ?_, ?_⟩, good_scalar _ _ _⟩
+    refine ⟨_, rfl, ⟨?_, ?_, ?_⟩, (good_scalar _ _ _).wf, (good_scalar _ _ _).nd,
+      fun _ => (good_scalar _ _ _).herm⟩
     · have := hc.rows; simp only [Op.rows] at this ⊢; exact this
     · have := hc.cols; simp only [Op.cols] at this ⊢; exact this
     · intro i j _ _
@@ -147,7 +155,7 @@ theorem mulRule_sound (re : R → R) (A : Op R) (s : Scal R) (v : Val R) (hg : O
         List.all_cons, List.all_nil, id, Bool.and_true, Bool.true_and, chainOk, Op.rows, Op.cols,
         beq_self_eq_true]
       exact hg.wf
-    refine ⟨_, rfl, ⟨?_, ?_, ?_⟩, ⟨hwf, ?_, ?_⟩⟩
+    refine ⟨_, rfl, ⟨?_, ?_, ?_⟩, hwf, ?_, ?_⟩
     · simp only [Op.rows, List.map_cons, List.head?_cons, Option.getD_some]
     · simp only [Op.cols, List.map_cons, List.map_nil, List.getLast?_cons_cons,
         List.getLast?_singleton, Option.getD_some]
@@ -161,13 +169,22 @@ theorem mulRule_sound (re : R → R) (A : Op R) (s : Scal R) (v : Val R) (hg : O
     · simp only [Op.dupSlice, List.map_cons, List.map_nil, List.any_cons, List.any_nil, id,
         Bool.or_false, Bool.false_or]
       exact hg.nd
-    · simp only [HermOK]
+    · intro hH
+      simp only [HermOK]
       refine ⟨hH, ?_⟩
       intro M hM
       simp only [List.mem_cons, List.not_mem_nil, or_false] at hM
       rcases hM with rfl | rfl
       · exact (good_scalar _ _ _).herm
       · exact hg.herm
+
+/-- `mulRule_build` with the Hermitian-node condition of the built `Product` supplied -/
+theorem mulRule_sound (re : R → R) (A : Op R) (s : Scal R) (v : Val R) (hg : Op.Good A)
+    (hl : s.cplx = false ∨ A.dtype.isComplex = true)
+    (h : mulRule re A s = .ok v) (hH : v.HermTop) :
+    ∃ B, v = .op B ∧ B.Rep A.rows A.cols (smulM s.v A.den.f) ∧ Op.Good B := by
+  obtain ⟨B, rfl, hB, hw, hn, hh⟩ := mulRule_build re A s v hg hl h
+  exact ⟨B, rfl, hB, ⟨hw, hn, hh hH⟩⟩
 
 
 /-! ## negation -/
@@ -358,10 +375,60 @@ def prodParts (A : Op R) : List (Op R) := (prodMembers A).getD [A]
 
 theorem dotRule_eq (A B : Op R) : dotRule A B =
     if A.cols != B.rows then .error "error:AssertionError" else
-    if isIdentity A then .ok (.op B) else if isIdentity B then .ok (.op A)
+    if isIdentity A then
+      if isIdentity B then
+        if absorbs B A then .ok (.op B) else .ok (.op (.eye (DType.promote A.dtype B.dtype) B.rows))
+      else if absorbs B A then .ok (.op B) else mkProd [A, B]
+    else if isIdentity B then (if absorbs A B then .ok (.op A) else mkProd [A, B])
     else mkProd (prodParts A ++ prodParts B) := by
   unfold dotRule prodParts
   cases prodMembers A <;> cases prodMembers B <;> simp
+
+theorem good_eye (dt : DType) (n : Nat) : Op.Good (eye dt n : Op R) := by
+  refine ⟨by simp only [Op.wf], by simp only [Op.dupSlice], ?_⟩
+  simp only [HermOK]
+  intro _
+  refine ⟨by simp only [Op.rows, Op.cols], ?_⟩
+  intro i j _ _
+  simp only [Op.den, MatV.of_f, eyeM]
+  by_cases h : i = j
+  · subst h; simp
+  · rw [if_neg h, if_neg (Ne.symm h)]; simp
+
+/-- the `Product` constructor on two operands as they are (the non-absorbing `Identity` rules) -/
+theorem mkProd_pair_sound (A B : Op R) (v : Val R) (hgA : Op.Good A) (hgB : Op.Good B)
+    (hdim : A.cols = B.rows) (h : mkProd [A, B] = .ok v) :
+    ∃ P, v = .op P ∧ P.Rep A.rows B.cols (mmul A.cols A.den.f B.den.f) ∧ P.wf = true ∧
+      P.dupSlice = false ∧ (Op.HermNode P → P.HermOK) := by
+  simp only [mkProd] at h
+  split at h
+  · injection h with h
+    subst h
+    refine ⟨_, rfl, ⟨?_, ?_, ?_⟩, ?_, ?_, ?_⟩
+    · simp only [Op.rows, List.map_cons, List.head?_cons, Option.getD_some]
+    · simp only [Op.cols, List.map_cons, List.map_nil, List.getLast?_cons_cons,
+        List.getLast?_singleton, Option.getD_some]
+    · intro i j hi hj
+      simp only [Op.den, forceV_f, List.map_cons, List.map_nil, List.foldr_cons, List.foldr_nil]
+      rw [mmul_apply, mmul_apply]
+      refine Finset.sum_congr rfl (fun q _ => ?_)
+      rw [mmul_eyeM_right B.cols B.den.f q j hj]
+    · simp only [Op.wf, List.isEmpty_cons, Bool.not_false, List.map_cons, List.map_nil,
+        List.all_cons, List.all_nil, id, Bool.and_true, Bool.true_and, chainOk,
+        Bool.and_eq_true, beq_iff_eq]
+      exact ⟨⟨hgA.wf, hgB.wf⟩, hdim⟩
+    · simp only [Op.dupSlice, List.map_cons, List.map_nil, List.any_cons, List.any_nil, id,
+        Bool.or_false, Bool.or_eq_false_iff]
+      exact ⟨hgA.nd, hgB.nd⟩
+    · intro hH
+      simp only [HermOK]
+      refine ⟨hH, ?_⟩
+      intro M hM
+      simp only [List.mem_cons, List.not_mem_nil, or_false] at hM
+      rcases hM with rfl | rfl
+      · exact hgA.herm
+      · exact hgB.herm
+  · cases h
 
 structure ProdParts (A : Op R) (L : List (Op R)) : Prop where
   ne : L ≠ []
@@ -412,34 +479,68 @@ theorem isIdentity_spec (A : Op R) (h : isIdentity A = true) :
     exact ⟨h1.symm.trans h2, by rw [← h3]; rfl⟩
   · cases h
 
-/-- **rule `dot`**: identities are dropped, nested products are flattened into one `Product`,
-an inner-dimension mismatch is rejected; the result represents `A · B`. -/
-theorem dotRule_sound (A B : Op R) (v : Val R) (hgA : Op.Good A) (hgB : Op.Good B)
-    (h : dotRule A B = .ok v) (hH : v.HermTop) :
+/-- **rule `dot`**: an identity operand is dropped when the other operand already has the
+promoted dtype (otherwise the two operands are kept in a `Product`, two identities become one
+identity of the promoted dtype), nested products are flattened into one `Product`, an
+inner-dimension mismatch is rejected; the result represents `A · B`. -/
+theorem dotRule_build (A B : Op R) (v : Val R) (hgA : Op.Good A) (hgB : Op.Good B)
+    (h : dotRule A B = .ok v) :
     A.cols = B.rows ∧
-      ∃ P, v = .op P ∧ P.Rep A.rows B.cols (mmul A.cols A.den.f B.den.f) ∧ Op.Good P := by
+      ∃ P, v = .op P ∧ P.Rep A.rows B.cols (mmul A.cols A.den.f B.den.f) ∧ P.wf = true ∧
+        P.dupSlice = false ∧ (Op.HermNode P → P.HermOK) := by
   rw [dotRule_eq] at h
   split at h
   · cases h
   rename_i hdim
   have hdim : A.cols = B.rows := by simpa using hdim
   refine ⟨hdim, ?_⟩
-  split at h
-  · rename_i hid
-    injection h with h
-    subst h
+  -- the result when the left identity is dropped
+  have dropL : isIdentity A = true →
+      (Val.op B).Rep A.rows B.cols (mmul A.cols A.den.f B.den.f) := by
+    intro hid
     obtain ⟨e1, e2⟩ := isIdentity_spec A hid
-    refine ⟨B, rfl, ⟨by rw [e1, hdim], rfl, ?_⟩, hgB⟩
+    refine ⟨by simp only [Val.rows]; rw [e1, hdim], rfl, ?_⟩
+    show EqOn A.rows B.cols B.den.f (mmul A.cols A.den.f B.den.f)
     rw [e2, e1, hdim]
     exact (eqOn_mmul_eyeM_left _ _ _).symm
-  split at h
-  · rename_i hid
-    injection h with h
-    subst h
+  have dropR : isIdentity B = true →
+      (Val.op A).Rep A.rows B.cols (mmul A.cols A.den.f B.den.f) := by
+    intro hid
     obtain ⟨e1, e2⟩ := isIdentity_spec B hid
-    refine ⟨A, rfl, ⟨rfl, by rw [← e1, hdim], ?_⟩, hgA⟩
+    refine ⟨rfl, by simp only [Val.cols]; rw [← e1, hdim], ?_⟩
+    show EqOn A.rows B.cols A.den.f (mmul A.cols A.den.f B.den.f)
     rw [e2, ← e1, ← hdim]
     exact (eqOn_mmul_eyeM_right _ _ _).symm
+  split at h
+  · rename_i hidA
+    split at h
+    · rename_i hidB
+      split at h
+      · injection h with h
+        subst h
+        exact ⟨B, rfl, Val.rep_op.mp (dropL hidA), hgB.wf, hgB.nd, fun _ => hgB.herm⟩
+      · injection h with h
+        subst h
+        obtain ⟨a1, a2⟩ := isIdentity_spec A hidA
+        obtain ⟨b1, b2⟩ := isIdentity_spec B hidB
+        refine ⟨_, rfl, ⟨?_, ?_, ?_⟩, (good_eye _ _).wf, (good_eye _ _).nd, fun _ => (good_eye _ _).herm⟩
+        · simp only [Op.rows]; rw [a1, hdim]
+        · simp only [Op.cols]; exact b1
+        · simp only [Op.den, MatV.of_f]
+          rw [a2, b2, a1, hdim]
+          exact (eqOn_mmul_eyeM_left _ _ _).symm
+    · split at h
+      · injection h with h
+        subst h
+        exact ⟨B, rfl, Val.rep_op.mp (dropL hidA), hgB.wf, hgB.nd, fun _ => hgB.herm⟩
+      · exact mkProd_pair_sound A B v hgA hgB hdim h
+  split at h
+  · rename_i hidB
+    split at h
+    · injection h with h
+      subst h
+      exact ⟨A, rfl, Val.rep_op.mp (dropR hidB), hgA.wf, hgA.nd, fun _ => hgA.herm⟩
+    · exact mkProd_pair_sound A B v hgA hgB hdim h
   have pA := prodParts_spec A hgA
   have pB := prodParts_spec B hgB
   simp only [mkProd] at h
@@ -469,7 +570,7 @@ theorem dotRule_sound (A B : Op R) (v : Val R) (hgA : Op.Good A) (hgB : Op.Good 
       simp only [Op.wf, Bool.and_eq_true, List.all_eq_true, List.mem_map, id,
         forall_exists_index, and_imp, forall_apply_eq_imp_iff₂]
       exact ⟨⟨by simp [hLA], fun N hN => (hgood N hN).wf⟩, hchain⟩
-    refine ⟨_, rfl, ⟨hrows, hcols, ?_⟩, ⟨hwf, ?_, ?_⟩⟩
+    refine ⟨_, rfl, ⟨hrows, hcols, ?_⟩, hwf, ?_, ?_⟩
     · simp only [Op.den, forceV_f]
       have hch := pA.chain
       rw [hLA] at hch
@@ -482,9 +583,58 @@ theorem dotRule_sound (A B : Op R) (v : Val R) (hgA : Op.Good A) (hgB : Op.Good 
     · simp only [Op.dupSlice, List.any_eq_false, List.mem_map, id, forall_exists_index, and_imp,
         forall_apply_eq_imp_iff₂, Bool.not_eq_true]
       exact fun N hN => (hgood N hN).nd
-    · simp only [HermOK]
+    · intro hH
+      simp only [HermOK]
       exact ⟨hH, fun N hN => (hgood N hN).herm⟩
   · cases h
+
+/-- `dotRule_build` with the Hermitian-node condition of the built operator supplied -/
+theorem dotRule_sound (A B : Op R) (v : Val R) (hgA : Op.Good A) (hgB : Op.Good B)
+    (h : dotRule A B = .ok v) (hH : v.HermTop) :
+    A.cols = B.rows ∧
+      ∃ P, v = .op P ∧ P.Rep A.rows B.cols (mmul A.cols A.den.f B.den.f) ∧ Op.Good P := by
+  obtain ⟨hd, P, rfl, hP, hw, hn, hh⟩ := dotRule_build A B v hgA hgB h
+  exact ⟨hd, P, rfl, hP, ⟨hw, hn, hh hH⟩⟩
+
+/-- `dot` never fails on two good operands whose inner dimensions agree: it returns an operator -/
+theorem dotRule_total (A B : Op R) (hgA : Op.Good A) (hgB : Op.Good B) (hdim : A.cols = B.rows) :
+    ∃ P, dotRule A B = .ok (.op P) := by
+  rw [dotRule_eq]
+  have hne : (A.cols != B.rows) = false := by simp [hdim]
+  have hpair : ∃ P, mkProd [A, B] = .ok (.op P) := by
+    refine ⟨.prod [A, B], ?_⟩
+    simp only [mkProd, List.map_cons, List.map_nil, chainOk, hdim, beq_self_eq_true, Bool.and_true,
+      if_true]
+  simp only [hne, Bool.false_eq_true, if_false]
+  split
+  · split
+    · split
+      · exact ⟨_, rfl⟩
+      · exact ⟨_, rfl⟩
+    · split
+      · exact ⟨_, rfl⟩
+      · exact hpair
+  split
+  · split
+    · exact ⟨_, rfl⟩
+    · exact hpair
+  have pA := prodParts_spec A hgA
+  have pB := prodParts_spec B hgB
+  have hch : chainOk ((prodParts A ++ prodParts B).map (fun M => (M.rows, M.cols))) = true := by
+    rw [List.map_append]
+    refine chainOk_append _ _ pA.chain pB.chain ?_
+    intro x hx y hy
+    simp only [List.getLast?_map, List.head?_map, Option.mem_def, Option.map_eq_some_iff] at hx hy
+    obtain ⟨M, hM, rfl⟩ := hx
+    obtain ⟨N, hN, rfl⟩ := hy
+    have h1 : lastCols (prodParts A) = M.cols := by
+      simp [lastCols, List.getLast?_map, hM]
+    have h2 : headRows (prodParts B) = N.rows := by
+      simp [headRows, List.head?_map, hN]
+    show M.cols = N.rows
+    rw [← h1, ← h2, pA.lc, pB.hr, hdim]
+  simp only [mkProd, hch, if_true]
+  exact ⟨_, rfl⟩
 
 
 /-! ## `@` on evaluated operands -/
@@ -1472,96 +1622,13 @@ end
 
 end ExprSound
 
-/-! ## dtype of the result -/
+/-! ## dtype of the result
 
-namespace DType
-
-theorem promote_comm (a b : DType) : promote a b = promote b a := by
-  cases a <;> cases b <;> rfl
-theorem promote_assoc (a b c : DType) : promote (promote a b) c = promote a (promote b c) := by
-  cases a <;> cases b <;> cases c <;> rfl
-theorem promote_f32_left (a : DType) : promote .f32 a = a := by cases a <;> rfl
-theorem promote_f32_right (a : DType) : promote a .f32 = a := by cases a <;> rfl
-theorem promote_self (a : DType) : promote a a = a := by cases a <;> rfl
-
-theorem foldl_promote_eq (l : List DType) (a : DType) :
-    l.foldl promote a = promote a (l.foldl promote .f32) := by
-  induction l generalizing a with
-  | nil => simp [promote_f32_right]
-  | cons b l ih =>
-    rw [List.foldl_cons, List.foldl_cons, ih, ih (promote .f32 b), promote_f32_left,
-      promote_assoc]
-
-theorem foldl_promote_cons (a : DType) (l : List DType) :
-    (a :: l).foldl promote .f32 = promote a (l.foldl promote .f32) := by
-  rw [List.foldl_cons, foldl_promote_eq, promote_f32_left]
-
-theorem foldl_promote_append (l1 l2 : List DType) :
-    (l1 ++ l2).foldl promote .f32 = promote (l1.foldl promote .f32) (l2.foldl promote .f32) := by
-  rw [List.foldl_append, foldl_promote_eq]
-
-end DType
-
-namespace Ex
-
-mutual
-/-- the dtype of the matrix expression: NumPy promotion of the operand dtypes; a scalar multiple
-or quotient of an operator keeps the operator's dtype -/
-def dtypeSpec : Ex R → DType
-  | op A => A.dtype
-  | arr dt _ _ _ => dt
-  | add x y => DType.promote (dtypeSpec x) (dtypeSpec y)
-  | sub x y => DType.promote (dtypeSpec x) (dtypeSpec y)
-  | neg x => dtypeSpec x
-  | smul _ x => dtypeSpec x
-  | muls x _ => dtypeSpec x
-  | divs x _ => dtypeSpec x
-  | sdiv _ x => dtypeSpec x
-  | addz x => dtypeSpec x
-  | matmul x y => DType.promote (dtypeSpec x) (dtypeSpec y)
-  | kron x y => DType.promote (dtypeSpec x) (dtypeSpec y)
-  | kronsum x y => DType.promote (dtypeSpec x) (dtypeSpec y)
-  | bdiag xs => dtypeSpecL xs
-  | sumList xs => dtypeSpecL xs
-  | lazify x => dtypeSpec x
-  | densify x => dtypeSpec x
-  | nodispatch x => dtypeSpec x
-def dtypeSpecL : List (Ex R) → DType
-  | [] => .f32
-  | x :: xs => DType.promote (dtypeSpec x) (dtypeSpecL xs)
-end
-
-/-- node condition of `ScalarOnOperator`: a scalar multiple / quotient is applied to an operator
-(for a plain array the dtype is NumPy's array-times-scalar promotion, `arrScalDtype`) -/
-def locScalOnOp (re : R → R) : Ex R → Prop
-  | smul _ x => ∀ v, eval re x = .ok v → ∃ A, v = .op A
-  | muls x _ => ∀ v, eval re x = .ok v → ∃ A, v = .op A
-  | divs x _ => ∀ v, eval re x = .ok v → ∃ A, v = .op A
-  | _ => True
-
-/-- node condition of `IdentityDtypeAbsorbed` (**clause** `identity-drop-dtype`): where `dot`
-drops an `Identity` operand, its dtype does not raise the dtype of the other operand -/
-def locIdAbsorb (re : R → R) : Ex R → Prop
-  | matmul x y => ∀ A B, eval re x = .ok (.op A) → eval re y = .ok (.op B) →
-      (isIdentity A = true → DType.promote A.dtype B.dtype = B.dtype) ∧
-      (isIdentity A = false → isIdentity B = true → DType.promote A.dtype B.dtype = A.dtype)
-  | _ => True
-
-def ScalarOnOperator (re : R → R) (e : Ex R) : Prop := e.All (locScalOnOp re)
-def IdentityDtypeAbsorbed (re : R → R) (e : Ex R) : Prop := e.All (locIdAbsorb re)
-
-end Ex
+`Ex.dtypeSpec` / `Ex.yieldsArr` (the specification) live in `Model/Expr.lean`; the `DType` lattice
+lemmas and `Op.dtype_eq_dtypeSpec` in `Lemmas/OpDtype.lean`. -/
 
 namespace ExprSound
 open Op Ex
-
-omit [CommRing R] [StarRing R] [DecidableEq R] in
-theorem core_dtype : ∀ (A : Op R), A.core.dtype = A.dtype
-  | annot a A => by simp only [core, Op.dtype]; exact core_dtype A
-  | dense .. => rfl | tri .. => rfl | sparse .. => rfl | scalar .. => rfl | eye .. => rfl
-  | prod .. => rfl | sum .. => rfl | Op.kron .. => rfl | Op.kronsum .. => rfl | Op.bdiag .. => rfl
-  | Op.diag .. => rfl | tridiag .. => rfl | transpose .. => rfl | adjoint .. => rfl
-  | sliced .. => rfl | perm .. => rfl | concat .. => rfl | house .. => rfl | generic .. => rfl
 
 theorem lazifyV_dtype (v : Val R) : (lazifyV v).dtype = v.dtype := by
   cases v <;> simp only [lazifyV, Val.dtype, Op.dtype]
@@ -1672,23 +1739,53 @@ theorem addV_dtype (x y v : Val R) (h : addV x y = .ok v) :
         rfl
       · cases h
 
-theorem dotRule_dtype (A B : Op R) (v : Val R) (h : dotRule A B = .ok v)
-    (h1 : isIdentity A = true → DType.promote A.dtype B.dtype = B.dtype)
-    (h2 : isIdentity A = false → isIdentity B = true → DType.promote A.dtype B.dtype = A.dtype) :
+theorem absorbs_eq {A I : Op R} (h : absorbs A I = true) :
+    DType.promote A.dtype I.dtype = A.dtype := by
+  simpa [absorbs] using h
+
+/-- rule `dot`: the result has the promoted dtype of the two operands — also where an identity
+operand is dropped (it is dropped only if the other operand absorbs its dtype) -/
+theorem dotRule_dtype (A B : Op R) (v : Val R) (h : dotRule A B = .ok v) :
     v.dtype = DType.promote A.dtype B.dtype := by
   rw [dotRule_eq] at h
+  have pair : ∀ v, mkProd [A, B] = .ok v → v.dtype = DType.promote A.dtype B.dtype := by
+    intro v h
+    simp only [mkProd] at h
+    split at h
+    · injection h with h
+      subst h
+      simp only [Val.dtype, Op.dtype, List.map_cons, List.map_nil, List.foldl_cons, List.foldl_nil,
+        DType.promote_f32_left]
+    · cases h
   split at h
   · cases h
   split at h
-  · rename_i hid
-    injection h with h
-    subst h
-    exact (h1 hid).symm
+  · split at h
+    · split at h
+      · rename_i hab
+        injection h with h
+        subst h
+        show B.dtype = _
+        rw [DType.promote_comm]
+        exact (absorbs_eq hab).symm
+      · injection h with h
+        subst h
+        simp only [Val.dtype, Op.dtype]
+    · split at h
+      · rename_i hab
+        injection h with h
+        subst h
+        show B.dtype = _
+        rw [DType.promote_comm]
+        exact (absorbs_eq hab).symm
+      · exact pair v h
   split at h
-  · rename_i hidA hidB
-    injection h with h
-    subst h
-    exact (h2 (by simpa using hidA) hidB).symm
+  · split at h
+    · rename_i hab
+      injection h with h
+      subst h
+      exact (absorbs_eq hab).symm
+    · exact pair v h
   simp only [mkProd] at h
   split at h
   · injection h with h
@@ -1697,17 +1794,14 @@ theorem dotRule_dtype (A B : Op R) (v : Val R) (h : dotRule A B = .ok v)
       prodParts_dtype]
   · cases h
 
-theorem matmulV_dtype (x y v : Val R) (h : matmulV x y = .ok v)
-    (hid : ∀ A B, x = .op A → y = .op B →
-      (isIdentity A = true → DType.promote A.dtype B.dtype = B.dtype) ∧
-      (isIdentity A = false → isIdentity B = true → DType.promote A.dtype B.dtype = A.dtype)) :
+theorem matmulV_dtype (x y v : Val R) (h : matmulV x y = .ok v) :
     v.dtype = DType.promote x.dtype y.dtype := by
   cases x with
   | op A =>
     cases y with
     | op B =>
       simp only [matmulV] at h
-      exact dotRule_dtype A B v h (hid A B rfl rfl).1 (hid A B rfl rfl).2
+      exact dotRule_dtype A B v h
     | arr dy ry cy b =>
       simp only [matmulV] at h
       split at h
@@ -1783,15 +1877,288 @@ theorem foldlM_addV_dtype : ∀ (rest : List (Val R)) (acc v : Val R),
     rw [foldlM_addV_dtype rest acc' v h2, addV_dtype acc w acc' h1, List.map_cons,
       DType.foldl_promote_cons, DType.promote_assoc]
 
+/-! ### which values are arrays -/
+
+theorem mulRule_isOp (re : R → R) (A : Op R) (s : Scal R) (v : Val R)
+    (h : mulRule re A s = .ok v) : v.isArr = false := by
+  simp only [mulRule] at h
+  split at h
+  · injection h with h; subst h; rfl
+  · split at h
+    · cases h
+    · injection h with h; subst h; rfl
+
+theorem negV_isArr (re : R → R) (x v : Val R) (h : negV re x = .ok v) : v.isArr = x.isArr := by
+  cases x with
+  | op A => exact mulRule_isOp re A _ v h
+  | arr dt r c a =>
+    simp only [negV, negArr] at h
+    injection h with h
+    subst h
+    rfl
+
+theorem mkSum_isOp (Ms : List (Op R)) (v : Val R) (h : mkSum Ms = .ok v) : v.isArr = false := by
+  simp only [mkSum] at h
+  split at h
+  · cases h
+  · split at h
+    · injection h with h; subst h; rfl
+    · cases h
+
+theorem mkProd_isOp (Ms : List (Op R)) (v : Val R) (h : mkProd Ms = .ok v) : v.isArr = false := by
+  simp only [mkProd] at h
+  split at h
+  · injection h with h; subst h; rfl
+  · cases h
+
+theorem mkKronSum_isOp (Ms : List (Op R)) (v : Val R) (h : mkKronSum Ms = .ok v) :
+    v.isArr = false := by
+  simp only [mkKronSum] at h
+  split at h
+  · injection h with h; subst h; rfl
+  · cases h
+
+theorem addRule_isOp (A B : Op R) (v : Val R) (h : addRule A B = .ok v) : v.isArr = false := by
+  rw [addRule_eq] at h
+  exact mkSum_isOp _ v h
+
+theorem addV_isArr (x y v : Val R) (h : addV x y = .ok v) :
+    v.isArr = (x.isArr && y.isArr) := by
+  cases x with
+  | op A =>
+    simp only [addV] at h
+    rw [addRule_isOp A _ v h]
+    rfl
+  | arr dx rx cx a =>
+    cases y with
+    | op B =>
+      simp only [addV] at h
+      rw [addRule_isOp B _ v h]
+      rfl
+    | arr dy ry cy b =>
+      simp only [addV] at h
+      split at h
+      · injection h with h; subst h; rfl
+      · cases h
+
+theorem dotRule_isOp (A B : Op R) (v : Val R) (h : dotRule A B = .ok v) : v.isArr = false := by
+  rw [dotRule_eq] at h
+  split at h
+  · cases h
+  split at h
+  · split at h
+    · split at h
+      · injection h with h; subst h; rfl
+      · injection h with h; subst h; rfl
+    · split at h
+      · injection h with h; subst h; rfl
+      · exact mkProd_isOp _ v h
+  split at h
+  · split at h
+    · injection h with h; subst h; rfl
+    · exact mkProd_isOp _ v h
+  exact mkProd_isOp _ v h
+
+theorem matmulV_isArr (x y v : Val R) (h : matmulV x y = .ok v) :
+    v.isArr = (x.isArr || y.isArr) := by
+  cases x with
+  | op A =>
+    cases y with
+    | op B =>
+      simp only [matmulV] at h
+      rw [dotRule_isOp A B v h]
+      rfl
+    | arr dy ry cy b =>
+      simp only [matmulV] at h
+      split at h
+      · cases h
+      · injection h with h; subst h; rfl
+  | arr dx rx cx a =>
+    cases y with
+    | op B =>
+      simp only [matmulV] at h
+      split at h
+      · cases h
+      · injection h with h; subst h; rfl
+    | arr dy ry cy b =>
+      simp only [matmulV] at h
+      split at h
+      · injection h with h; subst h; rfl
+      · cases h
+
+theorem kronRule_isOp (A B : Op R) (v : Val R) (h : kronRule A B = .ok v) : v.isArr = false := by
+  rw [kronRule_eq] at h
+  split at h
+  · injection h with h; subst h; rfl
+  · injection h with h; subst h; rfl
+
+theorem kronsumRule_isOp (A B : Op R) (v : Val R) (h : kronsumRule A B = .ok v) :
+    v.isArr = false := by
+  rw [kronsumRule_eq] at h
+  exact mkKronSum_isOp _ v h
+
+theorem foldlM_addV_isArr : ∀ (rest : List (Val R)) (acc v : Val R),
+    rest.foldlM (fun acc w => addV acc w) acc = .ok v →
+    v.isArr = (acc.isArr && rest.all (·.isArr))
+  | [], acc, v, h => by
+    simp only [List.foldlM_nil, pure, Except.pure] at h
+    injection h with h
+    subst h
+    simp
+  | w :: rest, acc, v, h => by
+    rw [List.foldlM_cons] at h
+    obtain ⟨acc', h1, h2⟩ := bind_ok h
+    rw [foldlM_addV_isArr rest acc' v h2, addV_isArr acc w acc' h1, List.all_cons, Bool.and_assoc]
+
+mutual
+/-- whether the value is a plain array is determined by the shape of the expression -/
+theorem isArr_all (re : R → R) : ∀ (e : Ex R) (v : Val R), eval re e = .ok v →
+    v.isArr = yieldsArr e
+  | Ex.op A, v, h => by
+    rw [Ex.eval] at h; injection h with h; subst h; rfl
+  | Ex.arr dt r c a, v, h => by
+    rw [Ex.eval] at h; injection h with h; subst h; rfl
+  | Ex.add x y, v, h => by
+    rw [Ex.eval] at h
+    obtain ⟨vx, hx, h⟩ := bind_ok h
+    obtain ⟨vy, hy, h⟩ := bind_ok h
+    rw [addV_isArr vx vy v h, isArr_all re x vx hx, isArr_all re y vy hy, yieldsArr]
+  | Ex.sub x y, v, h => by
+    rw [Ex.eval] at h
+    obtain ⟨vx, hx, h⟩ := bind_ok h
+    obtain ⟨vy, hy, h⟩ := bind_ok h
+    rw [yieldsArr, ← isArr_all re x vx hx, ← isArr_all re y vy hy]
+    cases vx with
+    | op A =>
+      simp only at h
+      obtain ⟨nv, hn, h⟩ := bind_ok h
+      rw [addV_isArr _ nv v h]
+      rfl
+    | arr dx rx' cx a =>
+      cases vy with
+      | op B =>
+        simp only at h
+        obtain ⟨nv, hn, h⟩ := bind_ok h
+        rw [addV_isArr nv _ v h, negV_isArr re _ nv hn]
+        rfl
+      | arr dy ry' cy b =>
+        simp only at h
+        rw [addV_isArr _ _ v h]
+        rfl
+  | Ex.neg x, v, h => by
+    rw [Ex.eval] at h
+    obtain ⟨vx, hx, h⟩ := bind_ok h
+    rw [negV_isArr re vx v h, isArr_all re x vx hx, yieldsArr]
+  | Ex.smul c x, v, h => by
+    rw [Ex.eval] at h
+    obtain ⟨vx, hx, h⟩ := bind_ok h
+    rw [yieldsArr, ← isArr_all re x vx hx]
+    cases vx with
+    | op A => simp only at h; exact mulRule_isOp re A _ v h
+    | arr dt r cc a => simp only at h; injection h with h; subst h; rfl
+  | Ex.muls x c, v, h => by
+    rw [Ex.eval] at h
+    obtain ⟨vx, hx, h⟩ := bind_ok h
+    rw [yieldsArr, ← isArr_all re x vx hx]
+    cases vx with
+    | op A => simp only at h; exact mulRule_isOp re A _ v h
+    | arr dt r cc a => simp only at h; injection h with h; subst h; rfl
+  | Ex.divs x c, v, h => by
+    rw [Ex.eval] at h
+    obtain ⟨vx, hx, h⟩ := bind_ok h
+    rw [yieldsArr, ← isArr_all re x vx hx]
+    cases vx with
+    | op A => simp only at h; exact mulRule_isOp re A _ v h
+    | arr dt r cc a => simp only at h; injection h with h; subst h; rfl
+  | Ex.sdiv c x, v, h => by
+    rw [Ex.eval] at h
+    obtain ⟨vx, hx, h⟩ := bind_ok h
+    rw [yieldsArr, ← isArr_all re x vx hx]
+    cases vx with
+    | op A => simp only at h; exact mulRule_isOp re A _ v h
+    | arr dt r cc a => simp only at h; cases h
+  | Ex.addz x, v, h => by
+    rw [Ex.eval] at h
+    rw [yieldsArr, isArr_all re x v h]
+  | Ex.matmul x y, v, h => by
+    rw [Ex.eval] at h
+    obtain ⟨vx, hx, h⟩ := bind_ok h
+    obtain ⟨vy, hy, h⟩ := bind_ok h
+    rw [matmulV_isArr vx vy v h, isArr_all re x vx hx, isArr_all re y vy hy, yieldsArr]
+  | Ex.kron x y, v, h => by
+    rw [Ex.eval] at h
+    obtain ⟨vx, hx, h⟩ := bind_ok h
+    obtain ⟨vy, hy, h⟩ := bind_ok h
+    rw [kronRule_isOp _ _ v h, yieldsArr]
+  | Ex.kronsum x y, v, h => by
+    rw [Ex.eval] at h
+    obtain ⟨vx, hx, h⟩ := bind_ok h
+    obtain ⟨vy, hy, h⟩ := bind_ok h
+    rw [kronsumRule_isOp _ _ v h, yieldsArr]
+  | Ex.bdiag xs, v, h => by
+    rw [Ex.eval] at h
+    obtain ⟨vs, hvs, h⟩ := bind_ok h
+    split at h
+    · cases h
+    injection h with h
+    subst h
+    rw [yieldsArr]
+    rfl
+  | Ex.sumList xs, v, h => by
+    rw [Ex.eval] at h
+    obtain ⟨vs, hvs, h⟩ := bind_ok h
+    rw [yieldsArr, ← isArrL_all re xs vs hvs]
+    cases vs with
+    | nil => cases h
+    | cons v0 rest =>
+      simp only at h
+      rw [foldlM_addV_isArr rest v0 v h, List.all_cons]
+  | Ex.lazify x, v, h => by
+    rw [Ex.eval] at h
+    obtain ⟨vx, hx, h⟩ := bind_ok h
+    injection h with h
+    subst h
+    rw [yieldsArr]
+    rfl
+  | Ex.densify x, v, h => by
+    rw [Ex.eval] at h
+    obtain ⟨vx, hx, h⟩ := bind_ok h
+    rw [yieldsArr]
+    cases vx with
+    | op A => simp only at h; injection h with h; subst h; rfl
+    | arr dt r c a => simp only at h; injection h with h; subst h; rfl
+  | Ex.nodispatch x, v, h => by
+    rw [Ex.eval] at h
+    obtain ⟨vx, hx, h⟩ := bind_ok h
+    rw [yieldsArr]
+    cases vx with
+    | op A => simp only at h; injection h with h; subst h; rfl
+    | arr dt r c a => simp only at h; cases h
+theorem isArrL_all (re : R → R) : ∀ (xs : List (Ex R)) (vs : List (Val R)),
+    xs.mapM (eval re) = .ok vs → vs.all (·.isArr) = yieldsArrL xs
+  | [], vs, h => by
+    rw [List.mapM_nil] at h
+    injection h with h
+    subst h
+    rfl
+  | x :: xs, vs, h => by
+    rw [List.mapM_cons] at h
+    obtain ⟨v, hv, h⟩ := bind_ok h
+    obtain ⟨vs', hvs, h⟩ := bind_ok h
+    injection h with h
+    subst h
+    rw [List.all_cons, isArr_all re x v hv, isArrL_all re xs vs' hvs, yieldsArrL]
+end
+
 /-- the dtype of the value is the dtype of the matrix expression -/
-def DtOK (re : R → R) (e : Ex R) : Prop := ∀ v, eval re e = .ok v → v.dtype = dtypeSpec e
+def DtOK (re : R → R) (e : Ex R) : Prop := ∀ v, eval re e = .ok v → v.dtype = Ex.dtypeSpec e
 def DtOKL (re : R → R) (xs : List (Ex R)) : Prop :=
-  ∀ vs, xs.mapM (eval re) = .ok vs → (vs.map (·.dtype)).foldl DType.promote .f32 = dtypeSpecL xs
+  ∀ vs, xs.mapM (eval re) = .ok vs → (vs.map (·.dtype)).foldl DType.promote .f32 = Ex.dtypeSpecL xs
 
 theorem dt_bin (re : R → R) (x y : Ex R) (e : Ex R) (ihx : DtOK re x) (ihy : DtOK re y)
     (f : Val R → Val R → Except String (Val R))
     (he : eval re e = (do f (← eval re x) (← eval re y)))
-    (hs : dtypeSpec e = DType.promote (dtypeSpec x) (dtypeSpec y))
+    (hs : Ex.dtypeSpec e = DType.promote (Ex.dtypeSpec x) (Ex.dtypeSpec y))
     (hf : ∀ vx vy v, eval re x = .ok vx → eval re y = .ok vy → f vx vy = .ok v →
       v.dtype = DType.promote vx.dtype vy.dtype) : DtOK re e := by
   intro v h
@@ -1806,7 +2173,7 @@ theorem dt_sub (re : R → R) (x y : Ex R) (ihx : DtOK re x) (ihy : DtOK re y) :
   rw [Ex.eval] at h
   obtain ⟨vx, hx, h⟩ := bind_ok h
   obtain ⟨vy, hy, h⟩ := bind_ok h
-  rw [dtypeSpec, ← ihx vx hx, ← ihy vy hy]
+  rw [Ex.dtypeSpec, ← ihx vx hx, ← ihy vy hy]
   cases vx with
   | op A =>
     simp only at h
@@ -1828,15 +2195,26 @@ theorem dt_scal (re : R → R) (x e : Ex R) (s : Scal R) (dtf : DType → DType)
     (he : eval re e = (do match ← eval re x with
       | .op A => mulRule re A s
       | .arr dt r cc a => .ok (.arr (dtf dt) r cc (smulM t a))))
-    (hs : dtypeSpec e = dtypeSpec x) (hop : ∀ v, eval re x = .ok v → ∃ A, v = .op A) :
+    (hs : Ex.dtypeSpec e = if yieldsArr x then dtf (Ex.dtypeSpec x) else Ex.dtypeSpec x) :
     DtOK re e := by
   intro v h
   rw [he] at h
   obtain ⟨vx, hx, h⟩ := bind_ok h
-  obtain ⟨A, rfl⟩ := hop vx hx
-  simp only at h
-  rw [mulRule_dtype re A s v h, hs, ← ihx _ hx]
-  rfl
+  have ha := isArr_all re x vx hx
+  have hd := ihx vx hx
+  cases vx with
+  | op A =>
+    simp only at h
+    have ha' : yieldsArr x = false := ha.symm
+    rw [mulRule_dtype re A s v h, hs, ha', ← hd]
+    rfl
+  | arr dt r cc a =>
+    simp only at h
+    injection h with h
+    subst h
+    have ha' : yieldsArr x = true := ha.symm
+    rw [hs, ha', ← hd]
+    rfl
 
 theorem dtL_nil (re : R → R) : DtOKL re ([] : List (Ex R)) := by
   intro vs h
@@ -1853,7 +2231,7 @@ theorem dtL_cons (re : R → R) (x : Ex R) (xs : List (Ex R)) (ihx : DtOK re x)
   obtain ⟨vs', hvs, h⟩ := bind_ok h
   injection h with h
   subst h
-  rw [List.map_cons, DType.foldl_promote_cons, ihx v hv, ih vs' hvs, dtypeSpecL]
+  rw [List.map_cons, DType.foldl_promote_cons, ihx v hv, ih vs' hvs, Ex.dtypeSpecL]
 
 theorem dt_bdiag (re : R → R) (xs : List (Ex R)) (ih : DtOKL re xs) : DtOK re (bdiag xs) := by
   intro v h
@@ -1863,7 +2241,7 @@ theorem dt_bdiag (re : R → R) (xs : List (Ex R)) (ih : DtOKL re xs) : DtOK re 
   · cases h
   injection h with h
   subst h
-  rw [dtypeSpec, ← ih vs hvs]
+  rw [Ex.dtypeSpec, ← ih vs hvs]
   simp only [Val.dtype, Op.dtype, List.map_map]
   congr 1
   apply List.map_congr_left
@@ -1875,7 +2253,7 @@ theorem dt_sumList (re : R → R) (xs : List (Ex R)) (ih : DtOKL re xs) :
   intro v h
   rw [Ex.eval] at h
   obtain ⟨vs, hvs, h⟩ := bind_ok h
-  rw [dtypeSpec, ← ih vs hvs]
+  rw [Ex.dtypeSpec, ← ih vs hvs]
   cases vs with
   | nil => cases h
   | cons v0 rest =>
@@ -1883,112 +2261,201 @@ theorem dt_sumList (re : R → R) (xs : List (Ex R)) (ih : DtOKL re xs) :
     rw [foldlM_addV_dtype rest v0 v h, List.map_cons, DType.foldl_promote_cons]
 
 mutual
-theorem dt_all (re : R → R) : ∀ (e : Ex R), e.All (fun e => locScalOnOp re e ∧ locIdAbsorb re e) →
-    DtOK re e
-  | Ex.op A, _ => by
+theorem dt_all (re : R → R) : ∀ (e : Ex R), DtOK re e
+  | Ex.op A => by
+    intro v h; rw [Ex.eval] at h; injection h with h; subst h
+    rw [Ex.dtypeSpec]; exact Op.dtype_eq_dtypeSpec A
+  | Ex.arr dt r c a => by
     intro v h; rw [Ex.eval] at h; injection h with h; subst h; rfl
-  | Ex.arr dt r c a, _ => by
-    intro v h; rw [Ex.eval] at h; injection h with h; subst h; rfl
-  | Ex.add x y, h => by
-    simp only [All] at h
-    exact dt_bin re x y _ (dt_all re x h.2.1) (dt_all re y h.2.2) addV (by rw [Ex.eval])
-      (by rw [dtypeSpec]) (fun vx vy v _ _ hf => addV_dtype vx vy v hf)
-  | Ex.sub x y, h => by
-    simp only [All] at h
-    exact dt_sub re x y (dt_all re x h.2.1) (dt_all re y h.2.2)
-  | Ex.neg x, h => by
-    simp only [All] at h
+  | Ex.add x y => by
+    exact dt_bin re x y _ (dt_all re x) (dt_all re y) addV (by rw [Ex.eval])
+      (by rw [Ex.dtypeSpec]) (fun vx vy v _ _ hf => addV_dtype vx vy v hf)
+  | Ex.sub x y => by
+    exact dt_sub re x y (dt_all re x) (dt_all re y)
+  | Ex.neg x => by
     intro v hv
     rw [Ex.eval] at hv
     obtain ⟨vx, hx, hv⟩ := bind_ok hv
-    rw [negV_dtype re vx v hv, dtypeSpec, dt_all re x h.2 vx hx]
-  | Ex.smul c x, h => by
-    simp only [All] at h
-    exact dt_scal re x _ c (fun dt => arrScalDtype dt c) c.v (dt_all re x h.2) (by rw [Ex.eval]; rfl)
-      (by rw [dtypeSpec]) h.1.1
-  | Ex.muls x c, h => by
-    simp only [All] at h
-    exact dt_scal re x _ c (fun dt => arrScalDtype dt c) c.v (dt_all re x h.2) (by rw [Ex.eval]; rfl)
-      (by rw [dtypeSpec]) h.1.1
-  | Ex.divs x c, h => by
-    simp only [All] at h
+    rw [negV_dtype re vx v hv, Ex.dtypeSpec, dt_all re x vx hx]
+  | Ex.smul c x => by
+    exact dt_scal re x _ c (fun dt => arrScalDtype dt c) c.v (dt_all re x) (by rw [Ex.eval]; rfl)
+      (by rw [Ex.dtypeSpec])
+  | Ex.muls x c => by
+    exact dt_scal re x _ c (fun dt => arrScalDtype dt c) c.v (dt_all re x) (by rw [Ex.eval]; rfl)
+      (by rw [Ex.dtypeSpec])
+  | Ex.divs x c => by
     exact dt_scal re x _ ⟨c.inv, c.v, if c.kind == .pyint then .pyfloat else c.kind, c.cplx⟩
-      (fun dt => arrScalDtype dt c) c.inv (dt_all re x h.2) (by rw [Ex.eval]; rfl)
-      (by rw [dtypeSpec]) h.1.1
-  | Ex.sdiv c x, h => by
-    simp only [All] at h
+      (fun dt => arrScalDtype dt c) c.inv (dt_all re x) (by rw [Ex.eval]; rfl)
+      (by rw [Ex.dtypeSpec])
+  | Ex.sdiv c x => by
     intro v hv
     rw [Ex.eval] at hv
     obtain ⟨vx, hx, hv⟩ := bind_ok hv
     cases vx with
     | op A =>
       simp only at hv
-      rw [mulRule_dtype re A _ v hv, dtypeSpec, ← dt_all re x h.2 _ hx]
+      rw [mulRule_dtype re A _ v hv, Ex.dtypeSpec, ← dt_all re x _ hx]
       rfl
     | arr dt r c a => simp only at hv; cases hv
-  | Ex.addz x, h => by
-    simp only [All] at h
+  | Ex.addz x => by
     intro v hv
     rw [Ex.eval] at hv
-    rw [dtypeSpec, dt_all re x h.2 v hv]
-  | Ex.matmul x y, h => by
-    simp only [All] at h
-    refine dt_bin re x y _ (dt_all re x h.2.1) (dt_all re y h.2.2) matmulV (by rw [Ex.eval])
-      (by rw [dtypeSpec]) (fun vx vy v hx hy hf => matmulV_dtype vx vy v hf ?_)
-    intro A B e1 e2
-    subst e1 e2
-    exact h.1.2 A B hx hy
-  | Ex.kron x y, h => by
-    simp only [All] at h
-    refine dt_bin re x y _ (dt_all re x h.2.1) (dt_all re y h.2.2)
-      (fun a b => kronRule (lazifyV a) (lazifyV b)) (by rw [Ex.eval]) (by rw [dtypeSpec]) ?_
+    rw [Ex.dtypeSpec, dt_all re x v hv]
+  | Ex.matmul x y => by
+    refine dt_bin re x y _ (dt_all re x) (dt_all re y) matmulV (by rw [Ex.eval])
+      (by rw [Ex.dtypeSpec]) (fun vx vy v _ _ hf => matmulV_dtype vx vy v hf)
+  | Ex.kron x y => by
+    refine dt_bin re x y _ (dt_all re x) (dt_all re y)
+      (fun a b => kronRule (lazifyV a) (lazifyV b)) (by rw [Ex.eval]) (by rw [Ex.dtypeSpec]) ?_
     intro vx vy v _ _ hf
     rw [kronRule_dtype _ _ v hf, lazifyV_dtype, lazifyV_dtype]
-  | Ex.kronsum x y, h => by
-    simp only [All] at h
-    refine dt_bin re x y _ (dt_all re x h.2.1) (dt_all re y h.2.2)
-      (fun a b => kronsumRule (lazifyV a) (lazifyV b)) (by rw [Ex.eval]) (by rw [dtypeSpec]) ?_
+  | Ex.kronsum x y => by
+    refine dt_bin re x y _ (dt_all re x) (dt_all re y)
+      (fun a b => kronsumRule (lazifyV a) (lazifyV b)) (by rw [Ex.eval]) (by rw [Ex.dtypeSpec]) ?_
     intro vx vy v _ _ hf
     rw [kronsumRule_dtype _ _ v hf, lazifyV_dtype, lazifyV_dtype]
-  | Ex.bdiag xs, h => by
-    simp only [All] at h
-    exact dt_bdiag re xs (dtL_all re xs h.2)
-  | Ex.sumList xs, h => by
-    simp only [All] at h
-    exact dt_sumList re xs (dtL_all re xs h.2)
-  | Ex.lazify x, h => by
-    simp only [All] at h
+  | Ex.bdiag xs => by
+    exact dt_bdiag re xs (dtL_all re xs)
+  | Ex.sumList xs => by
+    exact dt_sumList re xs (dtL_all re xs)
+  | Ex.lazify x => by
     intro v hv
     rw [Ex.eval] at hv
     obtain ⟨vx, hx, hv⟩ := bind_ok hv
     injection hv with hv
     subst hv
-    rw [dtypeSpec, ← dt_all re x h.2 vx hx]
+    rw [Ex.dtypeSpec, ← dt_all re x vx hx]
     exact lazifyV_dtype vx
-  | Ex.densify x, h => by
-    simp only [All] at h
+  | Ex.densify x => by
     intro v hv
     rw [Ex.eval] at hv
     obtain ⟨vx, hx, hv⟩ := bind_ok hv
-    rw [dtypeSpec, ← dt_all re x h.2 vx hx]
+    rw [Ex.dtypeSpec, ← dt_all re x vx hx]
     cases vx with
     | op A => simp only at hv; injection hv with hv; subst hv; rfl
     | arr dt r c a => simp only at hv; injection hv with hv; subst hv; rfl
-  | Ex.nodispatch x, h => by
-    simp only [All] at h
+  | Ex.nodispatch x => by
     intro v hv
     rw [Ex.eval] at hv
     obtain ⟨vx, hx, hv⟩ := bind_ok hv
-    rw [dtypeSpec, ← dt_all re x h.2 vx hx]
+    rw [Ex.dtypeSpec, ← dt_all re x vx hx]
     cases vx with
     | op A => simp only at hv; injection hv with hv; subst hv; simp only [Val.dtype, Op.dtype]
     | arr dt r c a => simp only at hv; cases hv
-theorem dtL_all (re : R → R) : ∀ (xs : List (Ex R)),
-    AllL (fun e => locScalOnOp re e ∧ locIdAbsorb re e) xs → DtOKL re xs
-  | [], _ => dtL_nil re
-  | x :: xs, h => by
-    simp only [AllL] at h
-    exact dtL_cons re x xs (dt_all re x h.1) (dtL_all re xs h.2)
+theorem dtL_all (re : R → R) : ∀ (xs : List (Ex R)), DtOKL re xs
+  | [] => dtL_nil re
+  | x :: xs => dtL_cons re x xs (dt_all re x) (dtL_all re xs)
 end
 
 end ExprSound
+
+/-! ## the clause list printed by the driver decides the clause hypotheses -/
+
+namespace Ex
+
+mutual
+theorem anyNode_false_iff (p : Ex R → Bool) : ∀ (e : Ex R),
+    anyNode p e = false ↔ All (fun e => p e = false) e
+  | op A => by simp only [anyNode, All]
+  | arr .. => by simp only [anyNode, All]
+  | add x y => by
+    simp only [anyNode, All, Bool.or_eq_false_iff, anyNode_false_iff p x, anyNode_false_iff p y,
+      and_assoc]
+  | sub x y => by
+    simp only [anyNode, All, Bool.or_eq_false_iff, anyNode_false_iff p x, anyNode_false_iff p y,
+      and_assoc]
+  | matmul x y => by
+    simp only [anyNode, All, Bool.or_eq_false_iff, anyNode_false_iff p x, anyNode_false_iff p y,
+      and_assoc]
+  | kron x y => by
+    simp only [anyNode, All, Bool.or_eq_false_iff, anyNode_false_iff p x, anyNode_false_iff p y,
+      and_assoc]
+  | kronsum x y => by
+    simp only [anyNode, All, Bool.or_eq_false_iff, anyNode_false_iff p x, anyNode_false_iff p y,
+      and_assoc]
+  | neg x => by simp only [anyNode, All, Bool.or_eq_false_iff, anyNode_false_iff p x]
+  | smul c x => by simp only [anyNode, All, Bool.or_eq_false_iff, anyNode_false_iff p x]
+  | muls x c => by simp only [anyNode, All, Bool.or_eq_false_iff, anyNode_false_iff p x]
+  | divs x c => by simp only [anyNode, All, Bool.or_eq_false_iff, anyNode_false_iff p x]
+  | sdiv c x => by simp only [anyNode, All, Bool.or_eq_false_iff, anyNode_false_iff p x]
+  | addz x => by simp only [anyNode, All, Bool.or_eq_false_iff, anyNode_false_iff p x]
+  | lazify x => by simp only [anyNode, All, Bool.or_eq_false_iff, anyNode_false_iff p x]
+  | densify x => by simp only [anyNode, All, Bool.or_eq_false_iff, anyNode_false_iff p x]
+  | nodispatch x => by simp only [anyNode, All, Bool.or_eq_false_iff, anyNode_false_iff p x]
+  | bdiag xs => by simp only [anyNode, All, Bool.or_eq_false_iff, anyNodeL_false_iff p xs]
+  | sumList xs => by simp only [anyNode, All, Bool.or_eq_false_iff, anyNodeL_false_iff p xs]
+theorem anyNodeL_false_iff (p : Ex R → Bool) : ∀ (xs : List (Ex R)),
+    anyNodeL p xs = false ↔ AllL (fun e => p e = false) xs
+  | [] => by simp only [anyNodeL, AllL]
+  | x :: xs => by
+    simp only [anyNodeL, AllL, Bool.or_eq_false_iff, anyNode_false_iff p x,
+      anyNodeL_false_iff p xs]
+end
+
+mutual
+theorem all_congr {P Q : Ex R → Prop} (h : ∀ e, P e ↔ Q e) : ∀ (e : Ex R), All P e ↔ All Q e
+  | op A => by simp only [All, h]
+  | arr .. => by simp only [All, h]
+  | add x y => by simp only [All, h, all_congr h x, all_congr h y]
+  | sub x y => by simp only [All, h, all_congr h x, all_congr h y]
+  | matmul x y => by simp only [All, h, all_congr h x, all_congr h y]
+  | kron x y => by simp only [All, h, all_congr h x, all_congr h y]
+  | kronsum x y => by simp only [All, h, all_congr h x, all_congr h y]
+  | neg x => by simp only [All, h, all_congr h x]
+  | smul c x => by simp only [All, h, all_congr h x]
+  | muls x c => by simp only [All, h, all_congr h x]
+  | divs x c => by simp only [All, h, all_congr h x]
+  | sdiv c x => by simp only [All, h, all_congr h x]
+  | addz x => by simp only [All, h, all_congr h x]
+  | lazify x => by simp only [All, h, all_congr h x]
+  | densify x => by simp only [All, h, all_congr h x]
+  | nodispatch x => by simp only [All, h, all_congr h x]
+  | bdiag xs => by simp only [All, h, allL_congr h xs]
+  | sumList xs => by simp only [All, h, allL_congr h xs]
+theorem allL_congr {P Q : Ex R → Prop} (h : ∀ e, P e ↔ Q e) :
+    ∀ (xs : List (Ex R)), AllL P xs ↔ AllL Q xs
+  | [] => by simp only [AllL]
+  | x :: xs => by simp only [AllL, all_congr h x, allL_congr h xs]
+end
+
+theorem isSdiv_false_iff (e : Ex R) : isSdiv e = false ↔ locNoSdiv e := by
+  cases e <;> simp [isSdiv, locNoSdiv]
+
+theorem lossy_aux (re : R → R) (c : Scal R) (x : Ex R) :
+    (match eval re x with
+      | .ok (.op A) => c.cplx && !A.dtype.isComplex
+      | _ => false) = false ↔
+    ∀ A, eval re x = .ok (.op A) → c.cplx = false ∨ A.dtype.isComplex = true := by
+  cases hx : eval re x with
+  | error m => simp
+  | ok v =>
+    cases v with
+    | arr dt r cc a => simp
+    | op B =>
+      simp only [Except.ok.injEq, Val.op.injEq, forall_eq']
+      cases c.cplx <;> cases B.dtype.isComplex <;> simp
+
+theorem lossyNode_false_iff (re : R → R) (e : Ex R) :
+    lossyNode re e = false ↔ locNoLossy re e := by
+  cases e with
+  | smul c x => simp only [lossyNode, locNoLossy]; exact lossy_aux re c x
+  | muls x c => simp only [lossyNode, locNoLossy]; exact lossy_aux re c x
+  | divs x c => simp only [lossyNode, locNoLossy]; exact lossy_aux re c x
+  | sdiv c x => simp only [lossyNode, locNoLossy]; exact lossy_aux re c x
+  | _ => simp [lossyNode, locNoLossy]
+
+/-- **the driver's clause list decides the clause hypotheses of `C03_sound_partial`**:
+`Ex.clauses re e = []` iff `e` has no `c / A` node and no lossy complex scalar multiple -/
+theorem clauses_nil_iff (re : R → R) (e : Ex R) :
+    clauses re e = [] ↔ e.NoScalarOverOp ∧ e.NoLossyComplex re := by
+  have h1 : anyNode isSdiv e = false ↔ e.NoScalarOverOp := by
+    rw [anyNode_false_iff]
+    exact all_congr isSdiv_false_iff e
+  have h2 : anyNode (lossyNode re) e = false ↔ e.NoLossyComplex re := by
+    rw [anyNode_false_iff]
+    exact all_congr (lossyNode_false_iff re) e
+  rw [← h1, ← h2]
+  simp only [clauses]
+  cases anyNode isSdiv e <;> cases anyNode (lossyNode re) e <;> simp
+
+end Ex
